@@ -759,6 +759,30 @@ def scen_prefix_siblings(rng):
     return {'tree': [[d, 'dir']] if rng.random() < 0.3 else [], 'funcs': funcs, 'steps': steps}
 
 
+def scen_overlay_order(rng):
+    """a caught failing build_file inside a subbuild that returns; the failing function lists (walks) the parent of
+    the directory made for it, next to real entries whose names sort before and after that directory's name: when
+    the record is validated again, real and overlay names have to come out in one sorted order"""
+    d = rng.choice(NAMES)
+    names = list(NAMES) + ['ab']
+    m = rng.choice(names)
+    others = [n for n in names if n != m]
+    real = rng.sample(others, rng.randint(1, len(others)))
+    out = '%s/%s/%s' % (d, m, rng.choice(['o', 'deep/o']))
+    look = rng.choice([_q('list_dir', d), _q('walk', d, True), _q('walk', d, False), _q('list_dir', '')])
+    funcs = [
+        _fn('f0', [_sb(1)] + _probe(rng, [d, out], 1)),
+        _fn('f1', [_bf(out, 2, catch=True, cmp_=rng.choice('MH'))] + ([_q('list_dir', d)] if rng.random() < 0.5 else [])),
+        _fn('f2', [look, ['w', None], ['raise', 5]] if rng.random() < 0.8 else [look, ['w', None]]),
+    ]
+    funcs.append(_fn('rootfail', funcs[0]['stmts'] + [['raise', 99]]))
+    tree = [[d, 'dir']] + [['%s/%s' % (d, n), 'file', 'r' + n, 300 + i] if rng.random() < 0.7 else ['%s/%s' % (d, n), 'dir'] for i, n in enumerate(real)]
+    steps = [_build(), _build(), _build()]
+    if rng.random() < 0.4:
+        steps += [['clean', 'n'], _build(), _build()]
+    return {'tree': tree, 'funcs': funcs, 'steps': steps}
+
+
 def scen_selfread(rng):
     """a build_file function that looks at its own target while it is writing it (the target is invisible to it:
     FileNotFoundError), writes it in two steps, and is later read back by a sibling - with HASH nothing may be
@@ -779,7 +803,7 @@ def scen_selfread(rng):
     return {'tree': [], 'funcs': funcs, 'steps': steps}
 
 
-SCENARIOS = [scen_nested_failure, scen_swap, scen_stale_dir, scen_dups, scen_versions, scen_reads, scen_identity, scen_foreign_swap, scen_sibling_failure, scen_todir, scen_selfread, scen_file_becomes_parent, scen_olddir_becomes_target, scen_prefix_siblings]
+SCENARIOS = [scen_nested_failure, scen_swap, scen_stale_dir, scen_dups, scen_versions, scen_reads, scen_identity, scen_foreign_swap, scen_sibling_failure, scen_todir, scen_selfread, scen_file_becomes_parent, scen_olddir_becomes_target, scen_prefix_siblings, scen_overlay_order]
 
 
 def gen_scenario_cases(seed, per_family, dirsize=4096, families=SCENARIOS):
